@@ -19,7 +19,8 @@ RULE = ('objects = (code section address, code bytes): sizes 0..70 and around 32
         'single records (type, address, data) incl. invalid types and oversized data. '
         'non-trivial = distinct object with non-empty code whose file was written without exception')
 EXPLANATION = ('Unbounded Coq theorems about Model.Srecord.write_srecord (all base addresses and byte strings with '
-               'base+len <= 2^32) against the format definition Spec.SrecSpec; the model is a hand model, tied to the '
+               'base+len <= 2^32) against the format definition Spec.SrecSpec (reader accepts every line, denotation, S0 header and '
+               'matching terminator, text shape of the lines); the model is a hand model, tied to the '
                'implementation by line-by-line correspondence on every run; the refuted theorems are about the writer '
                'before fixes C19-1..3 and their witnesses are replayed on the implementation on every run')
 TRUSTED = ['hand model coq/Model/Srecord.v == ppci/format/srecord.py (checked by correspondence only)',
@@ -258,7 +259,7 @@ def run(ctx):
     sr = load_impl()
     t0 = time.time()
     regen(ctx)
-    ok, _ = ctx.build(['Proofs/C19_srecord.vo', 'Proofs/C19_refuted.vo'])
+    ok, _ = ctx.build(['Proofs/C19_srecord.vo', 'Proofs/C19_refuted.vo', 'Proofs/C19_text.vo'])
     tm['build'] = round(time.time() - t0, 1)
     t0 = time.time()
     ctx.check_props('Props/C19.v')
@@ -362,7 +363,8 @@ MANIFEST = {
     'text': 'proof: for every code section address and byte string with address+size <= 2^32, every line written by '
             'write_srecord is accepted by the reference S-record reader (count and checksum correct), the file starts '
             'with an S0 header, uses one data record type S1/S2/S3 with the matching S9/S8/S7 terminator, and denotes '
-            'exactly the code bytes at consecutive addresses from the section address; larger objects are refused. '
+            'exactly the code bytes at consecutive addresses from the section address; larger objects are refused; every line is '
+            '\'S\' followed by characters 0-9A-F only and at most 74 characters long. '
             'The writer before fixes C19-1..3 is refuted (header as S1 data record, 16-bit address wrap).',
     'note': 'hand model of ppci/format/srecord.py (value_to_bytes_big_endian regenerated by py2coq), tied to the '
             'implementation by line-by-line comparison on ~1500 generated records/objects per run; trusted: Coq kernel, the '
